@@ -62,6 +62,11 @@ pub fn programs() -> Vec<(&'static str, String)> {
         ("undefined name close to several declared names", "total1 := 1\ntotal2 := 2\ntotal3 := 3\ntotals := 4\nprint(\"start\")\nprint(total)\n".to_string()),
         ("missing property close to several existing ones", "o := {\"name1\": 1, \"name2\": 2, \"name3\": 3, \"names\": 4}\nprint(\"start\")\nprint(o.name)\n".to_string()),
         ("unknown type function", "print(\"start\")\nprint(\"s\"->lenn())\n".to_string()),
+        ("error twelve frames deep through distinct functions", "fn f0(x) {\nreturn x.missing\n}\nfn f1(x) {\nreturn f0(x)\n}\nfn f2(x) {\nreturn f1(x)\n}\nfn f3(x) {\nreturn f2(x)\n}\nfn f4(x) {\nreturn f3(x)\n}\nfn f5(x) {\nreturn f4(x)\n}\nfn f6(x) {\nreturn f5(x)\n}\nfn f7(x) {\nreturn f6(x)\n}\nfn f8(x) {\nreturn f7(x)\n}\nfn f9(x) {\nreturn f8(x)\n}\nfn fa(x) {\nreturn f9(x)\n}\nfn fb(x) {\nreturn fa(x)\n}\nprint(\"start\")\nfb({})\n".to_string()),
+        ("error at the bottom of a deep recursion", "fn r(n) {\nif n == 0 {\nreturn [][1]\n}\nreturn 1 + r(n - 1)\n}\nprint(\"start\")\nprint(r(15))\n".to_string()),
+        ("recursion twenty-five calls deep", "fn r(n) {\nif n == 0 {\nreturn 0\n}\nreturn 1 + r(n - 1)\n}\nprint(r(25))\n".to_string()),
+        ("comparison of objects with an unequal and an ill-typed property", "a := {\"k1\": 1, \"k2\": \"x\", \"k3\": 3, \"k4\": [4], \"k5\": 5, \"k6\": null}\nb := {\"k1\": 2, \"k2\": 5, \"k3\": 3, \"k4\": 4, \"k5\": \"5\", \"k6\": 0}\nprint(\"start\")\nprint(a == b)\nprint(a != b)\n".to_string()),
+        ("comparison of objects whose first property is ill-typed", "a := {\"k1\": \"1\", \"k2\": 1, \"k3\": 3, \"k4\": 4, \"k5\": 5}\nb := {\"k1\": 1, \"k2\": 2, \"k3\": 4, \"k4\": 5, \"k5\": 6}\nprint(\"start\")\nprint(a == b)\n".to_string()),
         ("for over an object built by collect", format!("{}{{k3, ..r}} := o\nfor [k, v] in r {{\nprint([k, v])\n}}\n{{k1, k2, ..s}} = r\nprint(s)\n", big).replace("{k1, k2, ..s} = r", "k1 := 0\nk2 := 0\ns := 0\n{k1, k2, ..s} = r")),
     ]
 }
@@ -90,12 +95,17 @@ fn env_for(k: u8, seed: u64) -> Vec<(String, String)> {
             v.push(("HOME".into(), "/root".into()));
             v.push(("USER".into(), "root".into()));
             v.push(("TERM".into(), "xterm".into()));
+            v.push(("RUST_MIN_STACK".into(), "65536".into()));
         }
         2 => v.push(("LANG".into(), "C".into())),
         3 => v.push(("LC_ALL".into(), "en_US.UTF-8".into())),
         4 => v.push(("LC_ALL".into(), "tr_TR.UTF-8".into())),
         5 => v.push(("LANG".into(), "xx_INVALID".into())),
-        6 => v.push(("RUST_BACKTRACE".into(), "1".into())),
+        6 => {
+            v.push(("RUST_BACKTRACE".into(), "1".into()));
+            v.push(("RUST_MIN_STACK".into(), "268435456".into()));
+            v.push(("RUST_LOG".into(), "trace".into()));
+        }
         _ => {
             v.push(("HOME".into(), "/nonexistent".into()));
             v.push(("TZ".into(), "Pacific/Kiritimati".into()));
